@@ -1,19 +1,72 @@
 import Asn1Model.BerFraming
+import Asn1Proofs.Lemmas.BerFramingLemmas
 /-
   C15 — BER/DER framing helpers agree with the decoder on where a message ends.
-  (General theorems `probe_complete` / `probe_prefix` for all identifier and length octets are
-  being added; the closed instances below are kernel-evaluated tests of the model, labelled as such.)
 -/
 namespace Asn1.C15
 open Asn1 Asn1.Ber
 
-/-- test: a prefix that cuts the length octets in half is 'not yet known' -/
-theorem test_cut_length : fullLength [0x30, 0x82, 0x01] = .unknown := by decide
-/-- test: the complete header alone already gives the full length -/
-theorem test_header_only : fullLength [0x30, 0x82, 0x01, 0x00] = .known 260 := by decide
-/-- test: high tag number (two continuation octets) -/
-theorem test_high_tag : fullLength [0x5f, 0x87, 0x68, 0x03, 1] = .known 7 := by decide
-/-- test: a prefix that cuts a multi-octet tag is 'not yet known' -/
-theorem test_cut_tag : fullLength [0x5f, 0x87] = .unknown := by decide
+/-- For identifier octets `t`, definite length octets `l` for `n`, and ANY following bytes
+(content, partial content, or content plus a tail), the probe answers `|t| + |l| + n`:
+every prefix that contains the complete identifier and length octets yields the full message length. -/
+theorem probe_complete (t l rest : Bytes) (n : Nat) (ht : validTag t) (hl : validLen l n) :
+    fullLength (t ++ l ++ rest) = .known (t.length + l.length + n) := by
+  have hne : l ++ rest ≠ [] := by simp [validLen_ne_nil hl]
+  rw [List.append_assoc]
+  simp only [fullLength, skipTag_complete t (l ++ rest) ht hne, List.drop_left,
+    decodeLength_complete l rest n hl]
+
+/-- Every strictly shorter prefix (one that cuts the identifier or length octets) is reported as
+'not yet known', never as a wrong number. -/
+theorem probe_prefix (t l : Bytes) (n k : Nat) (ht : validTag t) (hl : validLen l n)
+    (hk : k < t.length + l.length) :
+    fullLength ((t ++ l).take k) = .unknown := by
+  rw [List.take_append]
+  by_cases hkt : k ≤ t.length
+  · have : k - t.length = 0 := by omega
+    simp [fullLength, this, skipTag_prefix t k ht]
+  · have h1 : t.take k = t := List.take_of_length_le (by omega)
+    have hne : l.take (k - t.length) ≠ [] := by
+      have := validLen_ne_nil hl
+      intro h
+      rcases List.take_eq_nil_iff.mp h with h | h
+      · omega
+      · exact this h
+    simp only [fullLength, h1, skipTag_complete t _ ht hne, List.drop_left,
+      decodeLength_prefix l n (k - t.length) hl (by omega)]
+
+/-- the encoder's own identifier and length octets are valid in the above sense -/
+theorem encTag_valid (number flags : Nat) (hf : flags < 256) (hf' : flags % 32 = 0) :
+    validTag (encTag number flags) := by
+  unfold encTag
+  split
+  · exact Or.inl ⟨_, rfl, by omega, by omega⟩
+  · refine Or.inr ⟨_, _, _, rfl, by omega, by omega, ?_, ?_⟩
+    · intro m hm
+      obtain ⟨d, hd, rfl⟩ := List.mem_map.mp hm
+      have := base128_lt _ _ d (List.dropLast_subset _ hd)
+      omega
+    · cases hds : (base128 (bitLength number + 1) number).getLast? with
+      | none => simp
+      | some d =>
+        have := base128_lt _ _ d (List.mem_of_getLast? hds)
+        simpa using this
+
+/-- ORIGINAL STATEMENT `∀ n, validLen (encLength n) n` IS FALSE: a long-form length has at most
+127 subsequent octets (X.690 8.1.3.5), and for `n ≥ 256 ^ 127` the model (like
+`encode_length_definite`) computes a first octet `128 + 128 = 256`, which is not a byte (see the
+two counterexample `example`s below).  This is the strongest true variant: the extra hypothesis
+`hn : n < 256 ^ 127` is also necessary, `Asn1.Ber.encLength_valid_iff`. -/
+theorem encLength_valid (n : Nat) (hn : n < 256 ^ 127) : validLen (encLength n) n :=
+  (encLength_valid_iff n).mpr hn
+
+-- counterexample to the unrestricted statement
+example : (encLength (256 ^ 127)).head? = some 256 := by decide +kernel
+example : ¬ validLen (encLength (256 ^ 127)) (256 ^ 127) :=
+  fun h => Nat.lt_irrefl _ ((encLength_valid_iff _).mp h)
+
+example : fullLength [0x30, 0x82, 0x01] = .unknown := by decide
+example : fullLength [0x30, 0x82, 0x01, 0x00] = .known 260 := by decide
+example : fullLength [0x5f, 0x87, 0x68, 0x03, 1] = .known 7 := by decide
 
 end Asn1.C15
